@@ -269,10 +269,11 @@ func fixedRenew() []NScenario {
 	}
 }
 
-// smallScopeRenew: every script over {short, past-half-life, fail} and every step sequence over
+// smallScopeRenew: every script over {short, past-half-life, fail, fail with an error wrapping
+// context.DeadlineExceeded} and every step sequence over
 // {5 s, 10 s, 60 s, 1 h} up to the given length.
 func smallScopeRenew(depth int) []NScenario {
-	items := []Item{okItem(0, 20*sec), okItem(-hr, mnt), {Kind: kFail}}
+	items := []Item{okItem(0, 20*sec), okItem(-hr, mnt), {Kind: kFail}, {Kind: kFail, Err: "wrap-deadline"}}
 	ds := []int64{5 * sec, 10 * sec, 60 * sec, hr}
 	var scripts [][]Item
 	var recS func(cur []Item)
@@ -312,6 +313,86 @@ func smallScopeRenew(depth int) []NScenario {
 	return out
 }
 
+func failItem(kind string) Item {
+	if kind == "plain" {
+		kind = ""
+	}
+	return Item{Kind: kFail, Err: kind}
+}
+
+// errKindRenew: issuer errors of EVERY kind (errkinds.go) at every renewal index, while the context
+// given to Run stays alive.  Per kind k:
+//
+//	A. p good fetches (20 s certificates, renewed at their half-life), then m consecutive failures of kind
+//	   k, then successes; the clock is advanced exactly to every armed deadline (δ = 0), so each retry
+//	   must be stamped exactly 10 s after the failure and the new SVID must be served after the success;
+//	B. 1 h certificate, coarse steps (5 s, 5 s, 10 s, 3 s, 7 s …): k, plain, k, then success; write dir on
+//	   every second kind;
+//	C. a fetch takes time (Hold): the failing answer arrives 7 s after the request, the retry is due 10 s
+//	   after the ANSWER; GetX509SVID is called at every step;
+//	D. the INITIAL fetch fails with kind k: Run must return an error, nothing is served, no further request;
+//	E. with a write dir, the TRUST-ANCHOR source fails with kind k during a renewal (the fetch fails after
+//	   the issuer answered): retried 10 s later, nothing published, SVID kept;
+//
+// plus F. every kind one after another in one script (both orders), and G. kinds alternating with
+// successes.  maxP / maxM bound the renewal index and the number of consecutive failures.
+func errKindRenew(maxP, maxM int) []NScenario {
+	var out []NScenario
+	short := func() Item { return okItem(0, 20*sec) }
+	for ki, k := range errKinds {
+		for p := 1; p <= maxP; p++ {
+			for m := 1; m <= maxM; m++ {
+				var script []Item
+				for i := 0; i < p; i++ {
+					script = append(script, short())
+				}
+				for i := 0; i < m; i++ {
+					script = append(script, failItem(k.Name))
+				}
+				script = append(script, short(), short())
+				out = append(out, NScenario{Dir: (ki+p+m)%4 == 0, Script: script, Steps: wakes(p + m + 3)})
+			}
+		}
+		// B
+		out = append(out, NScenario{Dir: ki%2 == 0, Anch: 1,
+			Script: []Item{okItem(0, hr), failItem(k.Name), failItem("plain"), failItem(k.Name), okItem(0, hr), okItem(0, hr)},
+			Steps:  steps(30*mnt, 5*sec, 5*sec, 10*sec, 3*sec, 7*sec, sec, 29*mnt, mnt, 10*sec)})
+		// C
+		out = append(out, NScenario{Hold: true, Dir: ki%3 == 0,
+			Script: []Item{okItem(0, hr), failItem(k.Name), failItem(k.Name), okItem(0, hr)},
+			Steps: []NStep{{Ans: true}, {D: 30 * mnt}, {D: 7 * sec}, {Ans: true}, {D: 9 * sec}, {D: sec}, {D: 2 * sec}, {Ans: true},
+				{D: 10 * sec}, {D: 5 * sec}, {Ans: true}, {D: mnt}, {D: 30 * mnt}}})
+		// D
+		out = append(out, NScenario{Script: []Item{failItem(k.Name), okItem(0, hr)}, Steps: steps(10*sec, hr)})
+		// E
+		out = append(out, NScenario{Dir: true, Anch: 2,
+			Script: []Item{short(), {Kind: kAnchorErr, A: 0, B: 20 * sec, Err: k.Name}, short(), short()}, Steps: wakes(5)})
+	}
+	// F
+	var all, rev []Item
+	all = append(all, short())
+	rev = append(rev, short())
+	for i := range errKinds {
+		all = append(all, failItem(errKinds[i].Name))
+		rev = append(rev, failItem(errKinds[len(errKinds)-1-i].Name))
+	}
+	all = append(all, short(), short())
+	rev = append(rev, short(), short())
+	out = append(out, NScenario{Script: all, Steps: wakes(len(all) + 2)}, NScenario{Dir: true, Script: rev, Steps: wakes(len(rev) + 2)})
+	// G
+	var alt []Item
+	alt = append(alt, short())
+	for i := range errKinds {
+		alt = append(alt, failItem(errKinds[i].Name), short())
+	}
+	var tenS []NStep
+	for i := 0; i < 2*len(alt)+2; i++ {
+		tenS = append(tenS, NStep{D: 10 * sec})
+	}
+	out = append(out, NScenario{Script: alt, Steps: wakes(len(alt) + 2)}, NScenario{Script: alt, Steps: tenS})
+	return out
+}
+
 var lifetimes = []int64{2 * sec, 10 * sec, 90 * sec, 10 * mnt, hr, day, 30 * day, 365 * day, 3650 * day}
 var stepSizes = []int64{sec, 3 * sec, 5 * sec, 10 * sec, 11 * sec, 30 * sec, 59 * sec, 60 * sec, 61 * sec, 5 * mnt, hr, 6 * hr,
 	1500 * int64(time.Millisecond), 250 * int64(time.Millisecond)}
@@ -342,13 +423,22 @@ func randomRenew(r *lib.Rand) NScenario {
 			}
 			sc.Script = append(sc.Script, okItem(a, a+life))
 		case k < 16:
-			sc.Script = append(sc.Script, Item{Kind: kFail})
+			// an issuer error of a random kind (half of them plain)
+			it := Item{Kind: kFail}
+			if r.Bool() {
+				it = failItem(errKinds[r.Intn(len(errKinds))].Name)
+			}
+			sc.Script = append(sc.Script, it)
 		case k < 17:
 			kind := kAnchorErr
 			if r.Bool() {
 				kind = kWriteErr
 			}
-			sc.Script = append(sc.Script, Item{Kind: kind, A: 0, B: lifetimes[r.Intn(len(lifetimes))]})
+			it := Item{Kind: kind, A: 0, B: lifetimes[r.Intn(len(lifetimes))]}
+			if kind == kAnchorErr && r.Bool() {
+				it.Err = errKinds[r.Intn(len(errKinds))].Name
+			}
+			sc.Script = append(sc.Script, it)
 		case k < 18:
 			sc.Script = append(sc.Script, Item{Kind: kEmpty})
 		default:
